@@ -16,7 +16,11 @@ MACB = {"ma": "00:00:00:00:00:0a", "mb": "00:00:00:00:00:0b", "mc": "02:ff:fe:80
 IPB = {"ia": "10.0.0.1", "ib": "192.168.0.2", "ic": "255.254.128.127", "id": "1.2.3.4"}
 PAY = {"p0": b"", "p1": b"\xff", "p7": b"abcdefg", "p8": b"abcdefgh",
        "p9": bytes([255, 254, 0, 1, 128, 127, 255, 255, 255]),
-       "p200": bytes((i * 7 + 3) % 256 for i in range(1, 201))}
+       "p200": bytes((i * 7 + 3) % 256 for i in range(1, 201)),
+       # first fragments: transport header of the whole datagram + the first octets of its data
+       "pu1": struct.pack("!HHHH", 1000, 2000, 3008, 0xbeef) + bytes(range(48, 64)),
+       "pt1": struct.pack("!HHIIBBHHH", 1000, 2000, 0x01020304, 0x05060708, 0x50, 0x10, 1000, 0xabcd, 0)
+              + bytes(range(65, 77))}
 PROTO = {"tcp": 6, "udp": 17, "icmp": 1, "x": 253}
 BITS = {"PORT_DOWN": 1, "NO_STP": 2, "NO_RECV": 4, "NO_RECV_STP": 8, "NO_FLOOD": 16,
         "NO_FWD": 32, "NO_PACKET_IN": 64}
@@ -25,7 +29,7 @@ MODEL_BITS = ["PORT_DOWN", "NO_RECV", "NO_RECV_STP", "NO_FLOOD", "NO_FWD", "NO_P
 
 def _l4(f):
   pl = PAY[f["pl"]]
-  if f["frag"] == 2:
+  if f["frag"] != 0:
     return pl
   src, dst = rb.ip(IPB[f["nsrc"]]), rb.ip(IPB[f["ndst"]])
   if f["proto"] == "tcp":
